@@ -83,6 +83,14 @@ def _work(args):
 def run(ck):
     quick = ck.tier == "quick"
     cases = jgen.corpus(ck.seed + 31, *((40, 110, 110, 20) if quick else (800, 3000, 3000, 500)))
+    # code whose lexical autoescape mode differs from the mode in force where it runs (autoescape blocks, constant
+    # and decided at run time; macros and blocks defined under one mode and used under the other): precompiled code
+    # bakes the lexical decision in exactly as source-compiled code does
+    cases += jgen.random_cases(ck.seed * 31 + 313, 50 if quick else 1200, start_id=len(cases) + 1, auto_mode="mixed",
+                               features=("loopcontrols", "regions"), size=9)
+    cases += jgen.inherit_cases(ck.seed * 31 + 314, 40 if quick else 1000, start_id=len(cases) + 1, rich=True)
+    for c in cases:
+        c.pop("emit_values", None)
     # template names are opaque keys: sets whose names differ only by ./ , // or x/../ must stay apart
     import json as _json
     extra = []
